@@ -62,9 +62,16 @@ def gen_spec(rng):
         if c not in codes:
             codes.append(c)
     stations = []
+    # a site code may carry several monuments, told apart by the point code only ('ALIC A' and 'ALIC B' are two
+    # stations with their own estimates, and both may have solution number 1)
+    twin = rng.choice(codes) if nst >= 2 and rng.random() < 0.12 else None
+    if twin is not None:
+        codes[rng.choice([i for i, c in enumerate(codes) if c != twin])] = twin
+    used_pts = {}
     for c in codes:
         nsol = 1 if rng.random() < 0.75 else rng.choice([2, 3])
-        pt = rng.choice(['A', 'A', 'A', 'B', 'C'])
+        pt = rng.choice([q for q in ['A', 'A', 'A', 'B', 'C'] if q not in used_pts.get(c, ())])
+        used_pts.setdefault(c, set()).add(pt)
         lon = [rng.randrange(0, 360), rng.randrange(0, 60), round(rng.uniform(0, 59.9), 1)]
         # latitude as [sign, deg, min, sec]: the sign lives in the degrees field even when deg == 0 ('-0 30 12.0')
         lat = [rng.choice([-1, 1]), rng.choice([0, 0, rng.randrange(0, 90)]) if rng.random() < 0.3 else rng.randrange(0, 90),
